@@ -3,7 +3,7 @@
    these combinators -- see [fanout_strict_refuted] -- so the general theorems are stated with
    the weak protocol [wfw] (finalized at least once; poll_finalize may be repeated). *)
 From Coq Require Import List NArith Bool Arith Lia.
-From HV Require Import Push.Model Push.PBase.
+From HV Require Import Push.Model Push.Historic Push.PBase.
 Import ListNotations.
 
 Set Implicit Arguments.
@@ -83,8 +83,8 @@ Section Two.
   (* unzip.rs is [h := id]; fanout.rs is [h := fun a => (a, a)] (item.clone()) *)
   Definition two_push : push C :=
     mkpush (both_ready (rec_push A) (rec_push B))
-           (fun c s => send (unzip_push (rec_push A) (rec_push B)) (h c) s)
-           (both_fin (rec_push A) (rec_push B)).
+           (fun c s => unzip_send (rec_push A) (rec_push B) (h c) s)
+           (both_fin_old (rec_push A) (rec_push B)).
 
   Definition ref0 (xs : list C) : list A := map (fun c => fst (h c)) xs.
   Definition ref1 (xs : list C) : list B := map (fun c => snd (h c)) xs.
@@ -105,7 +105,7 @@ Section Two.
 
   Lemma two_send : send_ok two_push Inv2.
   Proof.
-    intros xs c [s0 s1] [H0 H1]. cbn [send two_push unzip_push rec_push fst snd St rec_send].
+    intros xs c [s0 s1] [H0 H1]. cbn [send two_push rec_push fst snd St rec_send]; unfold unzip_send; cbn [send rec_push fst snd rec_send].
     eexists. split; [reflexivity|]. split; cbn [fst snd lg].
     - apply invd_send; auto. unfold ref0. rewrite map_app. reflexivity.
     - apply invd_send; auto. unfold ref1. rewrite map_app. reflexivity.
@@ -113,7 +113,7 @@ Section Two.
 
   Lemma two_fin : fin_ok two_push Inv2.
   Proof.
-    intros xs [s0 s1] H. unfold Inv2 in *. cbn [fin two_push]. unfold both_fin.
+    intros xs [s0 s1] H. unfold Inv2 in *. cbn [fin two_push]. unfold both_fin_old.
     cbn [rec_push fin fst snd St] in *.
     assert (G0 : InvD ref0 (Fing xs) (lg s0) \/ exists b, InvD ref0 (Run xs b) (lg s0)).
     { destruct H as [[H _]|[b [H _]]]; [left|right; exists b]; exact H. }
@@ -158,13 +158,13 @@ Section Two.
   Qed.
   Lemma two_ms : forall c (s s' : St two_push), send two_push c s = Some s' -> mu2 s' <= mu2 s.
   Proof.
-    intros c [s0 s1] s'. cbn [send two_push unzip_push rec_push fst snd St rec_send].
+    intros c [s0 s1] s'. cbn [send two_push rec_push fst snd St rec_send]; unfold unzip_send; cbn [send rec_push fst snd rec_send].
     intro E. inversion E. subst s'. unfold mu2, mu_ds. cbn [fst snd rs fs]. lia.
   Qed.
   Lemma two_mf : forall s : St two_push,
       mu2 (snd (fin two_push s)) + (if fst (fin two_push s) then 0 else 1) <= mu2 s.
   Proof.
-    intros [s0 s1]. unfold mu2. cbn [fin two_push]. unfold both_fin. cbn [rec_push fin fst snd St].
+    intros [s0 s1]. unfold mu2. cbn [fin two_push]. unfold both_fin_old. cbn [rec_push fin fst snd St].
     pose proof (rec_fin_mu s0). pose proof (rec_fin_mu s1).
     destruct (rec_fin s0) as [a s0']. destruct (rec_fin s1) as [b s1']. cbn [fst snd] in *.
     destruct a, b; cbn [andb]; lia.
@@ -185,7 +185,7 @@ End Two.
 (* ------------------------------------------------------------------ unzip.rs *)
 
 Theorem unzip_correct : forall A B fuel (items : list (A * B)) r0 f0 r1 f1,
-    match drive (unzip_push (rec_push A) (rec_push B)) fuel items (mkds r0 f0 [], mkds r1 f1 []) [] with
+    match drive (unzip_old_push (rec_push A) (rec_push B)) fuel items (mkds r0 f0 [], mkds r1 f1 []) [] with
     | (o, _, s') => o <> Panicked /\
                     down_spec_weak (map fst) items o (lg (fst s')) /\
                     down_spec_weak (map snd) items o (lg (snd s'))
@@ -194,7 +194,7 @@ Proof. intros. exact (two_correct (fun c : A * B => c) fuel items r0 f0 r1 f1). 
 
 Theorem unzip_terminates : forall A B fuel (items : list (A * B)) r0 f0 r1 f1,
     npend r0 + npend f0 + npend r1 + npend f1 + length items < fuel ->
-    fst (fst (drive (unzip_push (rec_push A) (rec_push B)) fuel items (mkds r0 f0 [], mkds r1 f1 []) []))
+    fst (fst (drive (unzip_old_push (rec_push A) (rec_push B)) fuel items (mkds r0 f0 [], mkds r1 f1 []) []))
     = Finished.
 Proof. intros. exact (two_terminates (fun c : A * B => c) items r0 f0 r1 f1 H). Qed.
 
@@ -204,15 +204,15 @@ Lemma map_id' : forall A (l : list A), map (fun a => a) l = l.
 Proof. induction l; cbn; congruence. Qed.
 
 Theorem fanout_correct : forall A fuel (items : list A) r0 f0 r1 f1,
-    match drive (fanout_push (rec_push A) (rec_push A)) fuel items (mkds r0 f0 [], mkds r1 f1 []) [] with
+    match drive (fanout_old_push (rec_push A) (rec_push A)) fuel items (mkds r0 f0 [], mkds r1 f1 []) [] with
     | (o, _, s') => o <> Panicked /\
                     down_spec_weak (fun xs => xs) items o (lg (fst s')) /\
                     down_spec_weak (fun xs => xs) items o (lg (snd s'))
     end.
 Proof.
   intros. pose proof (two_correct (fun a : A => (a, a)) fuel items r0 f0 r1 f1) as H.
-  change (two_push (fun a : A => (a, a))) with (fanout_push (rec_push A) (rec_push A)) in H.
-  destruct (drive (fanout_push (rec_push A) (rec_push A)) fuel items (mkds r0 f0 [], mkds r1 f1 []) [])
+  change (two_push (fun a : A => (a, a))) with (fanout_old_push (rec_push A) (rec_push A)) in H.
+  destruct (drive (fanout_old_push (rec_push A) (rec_push A)) fuel items (mkds r0 f0 [], mkds r1 f1 []) [])
     as [[o tr] s'].
   unfold ref0, ref1 in H. cbn [fst snd] in H.
   destruct H as [P [[W0 [[x0 [Q0 R0]] F0]] [W1 [[x1 [Q1 R1]] F1]]]].
@@ -221,7 +221,7 @@ Qed.
 
 Theorem fanout_terminates : forall A fuel (items : list A) r0 f0 r1 f1,
     npend r0 + npend f0 + npend r1 + npend f1 + length items < fuel ->
-    fst (fst (drive (fanout_push (rec_push A) (rec_push A)) fuel items (mkds r0 f0 [], mkds r1 f1 []) []))
+    fst (fst (drive (fanout_old_push (rec_push A) (rec_push A)) fuel items (mkds r0 f0 [], mkds r1 f1 []) []))
     = Finished.
 Proof. intros. exact (two_terminates (fun a : A => (a, a)) items r0 f0 r1 f1 H). Qed.
 
@@ -229,13 +229,13 @@ Proof. intros. exact (two_terminates (fun a : A => (a, a)) items r0 f0 r1 f1 H).
    poll_finalize; Fanout polls downstream 0 again after it answered Done.  The same witness
    refutes it for Unzip. *)
 Lemma fanout_strict_refuted : exists (items : list N) r0 f0 r1 f1,
-    match drive (fanout_push (rec_push N) (rec_push N)) 10 items (mkds r0 f0 [], mkds r1 f1 []) [] with
+    match drive (fanout_old_push (rec_push N) (rec_push N)) 10 items (mkds r0 f0 [], mkds r1 f1 []) [] with
     | (o, _, s') => o = Finished /\ wf (lg (fst s')) = false /\ refin (lg (fst s')) = 1
     end.
 Proof. exists [], [], [], [], [false]. vm_compute. auto. Qed.
 
 Lemma unzip_strict_refuted : exists (items : list (N * N)) r0 f0 r1 f1,
-    match drive (unzip_push (rec_push N) (rec_push N)) 10 items (mkds r0 f0 [], mkds r1 f1 []) [] with
+    match drive (unzip_old_push (rec_push N) (rec_push N)) 10 items (mkds r0 f0 [], mkds r1 f1 []) [] with
     | (o, _, s') => o = Finished /\ wf (lg (fst s')) = false /\ refin (lg (fst s')) = 1
     end.
 Proof. exists [], [], [], [], [false]. vm_compute. auto. Qed.
